@@ -291,8 +291,13 @@ def delete_obligations(ctx, R, prover, pid):
                     z3.Implies(deleted.t, current.discr == 0),
                     z3.Implies(z3.Not(deleted.t), cur_is_read))))
         goals["reply-reports-the-decision-taken"] = _all(rep)
+        goals["an-acknowledged-delete-really-happened-(the-removal-succeeded-or-the-path-was-already-absent)"] = _all(
+            z3.Implies(z3.And(e["guard"], m.discr == vD, m.pay[vD][0].t),
+                       _any(z3.And(rm["guard"], z3.Or(rm["ok"], rm["errkind"] == fsmodels.ERRKIND["NotFound"])) for rm in removes if rm["seq"] < e["seq"]))
+            for (e, m, _) in W.replies if vD in m.pay)
         goals["accepted-path-and-working-lock=>a-DeleteResult-reply"] = z3.Implies(
-            z3.And(z3.Not(W.refused), ok), _any(z3.And(e["guard"], m.discr == vD) for e, m, _ in W.replies))
+            z3.And(z3.Not(W.refused), ok, _all(z3.Implies(rm["guard"], z3.Or(rm["ok"], rm["errkind"] == fsmodels.ERRKIND["NotFound"])) for rm in removes)),
+            _any(z3.And(e["guard"], m.discr == vD) for e, m, _ in W.replies))
     covers = {"removal-reachable": _any(rm["guard"] for rm in removes), "conflict-reachable": z3.And(ok, z3.Not(_any(rm["guard"] for rm in removes)), z3.Not(W.refused))}
     prover.prove(ex, goals, "%s/handle_delete" % pid,
                  "one Delete request from an arbitrary state: any root/path names, any expected hash (absent or 32 arbitrary bytes), "
@@ -445,8 +450,18 @@ def put_obligations(ctx, R, prover, pid, ncap=3):
                     committed.t == _any(z3.And(r["guard"], r["to"] == W.dst) for r in renames if r["seq"] < e["seq"]),
                     z3.Implies(committed.t, cur_is_claim), z3.Implies(z3.Not(committed.t), cur_is_read))))
         goals["reply-reports-the-decision-taken"] = _all(rep)
+        ack = []
+        for (e, m, _) in W.replies:
+            if vP in m.pay:
+                committed = m.pay[vP][0]
+                ack.append(z3.Implies(z3.And(e["guard"], m.discr == vP, committed.t),
+                                      _any(z3.And(r["guard"], r["ok"], r["to"] == W.dst) for r in renames if r["seq"] < e["seq"])))
+                ack.append(z3.Implies(z3.And(e["guard"], m.discr == vP, z3.Not(committed.t)),
+                                      _any(z3.And(r["guard"], r["ok"], r["to"] != W.dst) for r in renames if r["seq"] < e["seq"])))
+        goals["an-acknowledged-commit-/-conflict-copy-really-happened-(the-rename-succeeded)"] = _all(ack)
         goals["verified-content,-accepted-path,-no-I/O-failure=>a-PutResult-reply"] = z3.Implies(
-            z3.And(ok, z3.Not(W.refused), hash_matches), _any(z3.And(e["guard"], m.discr == vP) for e, m, _ in W.replies))
+            z3.And(ok, z3.Not(W.refused), hash_matches, _all(z3.Implies(r["guard"], r["ok"]) for r in renames)),
+            _any(z3.And(e["guard"], m.discr == vP) for e, m, _ in W.replies))
     covers = {"commit-reachable": _any(z3.And(r["guard"], r["to"] == W.dst) for r in renames),
               "conflict-reachable": _any(z3.And(r["guard"], r["to"] != W.dst) for r in renames),
               "mismatch-reachable": z3.And(ok, hash_differs),
